@@ -471,6 +471,43 @@ def formulas(P, rep, thorough=False, rule="EXPR.models"):
                     okc = resid == 0 and not M.has(z) and has_clip and top_ok
                     detail = "dz = depth - (%s); T(dz=0) = %s" % (str(M)[:80], str(top)[:60])
             if okc:
+                # the adiabatic sentinel of the top temperature is evaluated at the depth from which dz is measured
+                Tp_, al_, cp_ = sp.symbols("Tp alpha cp", positive=True)
+
+                def hookw(nn):
+                    r0 = hookc(nn)
+                    if r0 is not None:
+                        return r0
+                    if nn.get("k") == "MemberExpr" and nn.get("n") in ("potential_mantle_temperature", "thermal_expansion_coefficient", "specific_heat") \
+                            and "world" in norm.render(P, nn):
+                        return {"potential_mantle_temperature": Tp_, "thermal_expansion_coefficient": al_, "specific_heat": cp_}[nn["n"]]
+                    return None
+                symw = norm.Sym(P, F, inline_locals=True, hook=hookw)
+                symw(X)
+                topk = symw.keys.get(top) if top.is_Symbol else None
+                if topk is None:
+                    topk = next((k_ for q_, k_ in symw.keys.items() if str(q_) == str(top)), None)
+                for asg in F.walk():
+                    if asg.get("k") == "BinaryOperator" and asg.get("op") == "=" and topk is not None and astq.is_ref_to(sc(asg["c"][0]), topk):
+                        try:
+                            rv = symw(asg["c"][1])
+                        except Exception:
+                            continue
+                        if not rv.has(Tp_):
+                            continue
+                        gs = [s_ for s_ in rv.free_symbols if s_ not in M.free_symbols and s_ not in (Tp_, al_, cp_)]
+                        same = len(gs) == 1 and sp.simplify(rv - Tp_ * sp.exp(al_ * gs[0] * M / cp_)) == 0
+                        if same:
+                            rep.ok(rule, "%s: the adiabatic top temperature is taken at the depth from which dz is measured" % F.qn, F.nloc(asg), F.qn)
+                        else:
+                            okc = None
+                            rep.violation(rule, "%s: the adiabatic top temperature is %s while dz is measured from %s" % (F.qn, str(rv)[:90], str(M)[:60]), F.nloc(asg), F.qn,
+                                          norm.render(P, asg)[:140], "with a negative top temperature the geotherm does not start from the adiabat at the model's (clipped) top",
+                                          key="%s|%s|adiabatic-top" % (rule, F.qn),
+                                          witness="chapman model with top temperature -1 in a plate whose min depth lies below the model's min depth")
+            if okc is None:
+                pass
+            elif okc:
                 rep.ok(rule, "%s = T_top + (q/k) dz - (A/(2k)) dz^2 with dz measured from the clipped top of the model range" % F.qn, F.loc, F.qn)
             else:
                 rep.violation(rule, "%s returns %s" % (F.qn, detail), F.nloc(X), F.qn, norm.render(P, X)[:120],
